@@ -253,7 +253,12 @@ func RemoveAll(fs FS, path string) error {
 }
 
 func removeAll(fs FS, path string) error {
-	info, err := Stat(fs, path)
+	// like os.RemoveAll: if Remove works, that is all. A symbolic link goes this way and is never followed
+	removeErr := Remove(fs, path)
+	if removeErr == nil || errors.Is(removeErr, ErrNotExist) {
+		return nil
+	}
+	info, err := LstatOrStat(fs, path)
 	if err != nil {
 		if errors.Is(err, ErrNotExist) {
 			err = nil
@@ -261,11 +266,7 @@ func removeAll(fs FS, path string) error {
 		return err
 	}
 	if !info.IsDir() {
-		err := Remove(fs, path)
-		if errors.Is(err, ErrNotExist) {
-			err = nil
-		}
-		return err
+		return removeErr
 	}
 
 	dir, err := ReadDir(fs, path)
